@@ -11,12 +11,13 @@ def run(res):
     lib.standard_check(
         res, "c01", n,
         prop_files=["theories/Properties/C01.v", "theories/Properties/C01srv.v"],
-        model_files=["theories/Rib/Run.v"],
+        model_files=["theories/Rib/Run.v", "theories/Server/Inst.v"],
         theorem_note="Properties/C01.v: C01_state_is_fold (for every order function and history: tables = fold of spec_apply over the acknowledgement log), "
                      "C01_replace_needs_existing, C01_delete_exact(_model), C01_no_trace, C01_oks_are_acked_ids; C01_tree_delete_refuted (v_tree: DELETE label 2^32+100 removes label 100); "
                      "Properties/C01srv.v (server level, every history of connects / messages / Flush / Get on any number of sessions): C01_server_frame, C01_server_INV, C01_server_state_is_fold, "
                      "C01_server_programmed_ids_are_acked, C01_server_only_primary_in_log, C01_server_get_reads_fold",
-        trusted=TB,
-        assumptions=["RIB-level histories (AddEntry/DeleteEntry/Flush/AddNetworkInstance) called sequentially; the server-level statement is C06/C04's model composed with this one",
+        trusted=TB + ["server-level run (vh c01srv): Server/Inst.v model + fake streams as in C06"],
+        extra_runs=[("c01srv", 60 if res.tier == "quick" else 1200)],
+        assumptions=["RIB-level histories (AddEntry/DeleteEntry/Flush/AddNetworkInstance) called sequentially, and server-level scripts (sessions, elections, batches, Flush) whose acknowledgements are read from the streams; the server-level theorems are C01srv.v",
                      "a group listing one next-hop twice with different weights is excluded from the generator (the stored weight then depends on Go map order inside protomap)",
                      "model-free oracle: fold of the implementation's own acknowledgements (by op id) compared with RIBContents after every step"])
